@@ -887,6 +887,7 @@ def g4_hidden_state(prog: Program, run: Run, rule: str, patterns: Sequence[str])
                                   "the database behind it, e.g. by refresh()) changes, the stale "
                                   "value is reported", f.loc, d)
     n += _m5_derived_index(prog, run, rule, patterns)
+    n += _m6_accumulates_across_refresh(prog, run, rule, patterns)
     run.ok(rule, "scope", f"{n} functions: no mutable default that is written, no memo keyed by a "
            "name, no lazily cached value that ignores an argument, no memoised method, no index "
            "derived from a list that is extended afterwards", "odxtools/")
@@ -897,6 +898,67 @@ def _self_attr(e: ast.AST, aliases: Dict[str, str]) -> Optional[str]:
     if isinstance(e, ast.Attribute) and isinstance(e.value, ast.Name) and e.value.id == "self":
         return aliases.get(e.attr, e.attr)
     return None
+
+
+_REFRESH_PHASES = ["_build_odxlinks", "_resolve_odxlinks", "_finalize_init", "_resolve_snrefs"]
+
+
+def _m6_accumulates_across_refresh(prog: Program, run: Run, rule: str,
+                                   patterns: Sequence[str]) -> int:
+    """(M6) the methods that Database.refresh() runs again (_build_odxlinks, _resolve_odxlinks,
+    _finalize_init, _resolve_snrefs) fill containers of the object (`self.X.append(...)`); each
+    such container is created afresh (`self.X = ...`, or emptied by a clear() that really
+    empties it) in the same pass before it is filled -- one created in __init__ /
+    __post_init__ only keeps what the previous pass put into it."""
+    # does clear() of the named item lists still empty the list itself?
+    clear_ok = True
+    ial = prog.classes.get("ItemAttributeList")
+    if ial is not None and "clear" in ial.methods:
+        src = ast.unparse(ial.methods["clear"].node)
+        clear_ok = "super().clear()" in src or "del self[:]" in src or "self[:] = []" in src
+    n = 0
+    for ci in prog.classes.values():
+        if not in_scope(ci.module.rel, patterns):
+            continue
+        fresh: Dict[str, List[Tuple[int, int]]] = {}
+        for i, nm in enumerate(_REFRESH_PHASES):
+            m = ci.methods.get(nm)
+            if m is None:
+                continue
+            for x in walk_no_nested(m.node):
+                if isinstance(x, (ast.Assign, ast.AnnAssign)):
+                    for t in (x.targets if isinstance(x, ast.Assign) else [x.target]):
+                        if (a := _self_attr(t, {})) is not None:
+                            fresh.setdefault(a, []).append((i, x.lineno))
+                if isinstance(x, ast.Call) and isinstance(x.func, ast.Attribute) and \
+                        x.func.attr == "clear" and clear_ok and (
+                            a := _self_attr(x.func.value, {})) is not None:
+                    fresh.setdefault(a, []).append((i, x.lineno))
+        for i, nm in enumerate(_REFRESH_PHASES):
+            m = ci.methods.get(nm)
+            if m is None:
+                continue
+            n += 1
+            for x in walk_no_nested(m.node):
+                a = None
+                if isinstance(x, ast.Call) and isinstance(x.func, ast.Attribute) and \
+                        x.func.attr in ("append", "extend", "add", "insert", "setdefault"):
+                    a = _self_attr(x.func.value, {})
+                if isinstance(x, ast.Subscript) and isinstance(x.ctx, ast.Store):
+                    a = _self_attr(x.value, {})
+                if a is None:
+                    continue
+                if any(j < i or (j == i and ln < x.lineno) for j, ln in fresh.get(a, [])):
+                    continue
+                run.violation(rule, f"{ci.module.rel}:{ci.name}", f"accumulates-across-refresh-{a}",
+                              f"{m.qual} fills self.{a} (line {x.lineno}) but no method of the "
+                              "refresh pass creates or empties it first" + (
+                                  "" if clear_ok else " (ItemAttributeList.clear() no longer "
+                                  "empties the list itself)") +
+                              ": after a second Database.refresh() it holds the objects of "
+                              "both passes, and objects removed from the description stay "
+                              "visible", f"{ci.module.rel}:{x.lineno}", a)
+    return n
 
 
 _INIT_PHASES = ["__init__", "__post_init__", "_build_odxlinks", "_resolve_odxlinks",
